@@ -226,4 +226,32 @@ PROPS = {
              "compared with the single-threaded one. distinct = (op-kind sequence, payload length class) / (threads, seed).",
         trusted=["hand model of QRBuilder tied by digest correspondence", "source audit regexp for shared mutable state"],
         assumptions=["rustc's aliasing rules: &self methods over plain data cannot race"]),
+    "C19": dict(
+        module="FastQr.Props.C19", level="fault_enumeration",
+        key=lambda t: (t[1], t[3], t[4], t[6] if len(t) > 6 else "", min(int(t[2]), 3) if t[1] == "5" else 0, int(t[2]) % 5 if t[1] == "5" else 0),
+        rule="cases: real SvgBuilder::to_file and ImageBuilder::to_file, each in a child process with one injected fault: none, "
+             "missing directory, path is a directory, unwritable directory (uid dropped), /dev/full, file-size limit of k bytes "
+             "(k = 0, 1, 2, half, len-1, len, len+1, page boundaries, random; thorough: every 7th offset up to 600 + 200 random, 3 "
+             "sizes) giving a short write then EFBIG, existing unwritable file, name too long, no file descriptors, symlink "
+             "loop, empty path, existing longer file. verdict: Ok only with the file byte-equal to the in-memory rendering; "
+             "every fault gives Err; never a panic. distinct = (fault kind, renderer, size, outcome, offset class).",
+        explanation="The all-or-error guarantee is a Lean theorem about the modelled control flow of to_file (create, then the "
+                    "write_all loop) for every byte string and every schedule of write behaviours; std::fs, tiny-skia's PNG "
+                    "writer and the OS are external, so the tie to the real code is the enumeration of injectable fault classes "
+                    "at create time and at every write offset, compared with the model's prediction (result and file state).",
+        trusted=["std::fs / tiny-skia save_png / the kernel (modelled as create + write_all)", "fault injection by rlimits, uid drop and special paths in a child process"],
+        assumptions=["short writes other than the one before a file-size limit, EINTR and Ok(0) are covered by the theorem only, not injected"]),
+    "C13": dict(
+        module="FastQr.Props.C13", level="other", partial=True,
+        key=lambda t: ("pix", t[4], tuple(x for x in t[6].split(";") if x.startswith(("m:", "s:"))), t[7] != "-", t[8] != "-", t[6].split("bc:")[-1][-2:]) if len(t) > 9 else None,
+        missing=["the rasteriser (resvg/usvg/tiny-skia), anti-aliasing, colour conversion and the PNG codec are external and not modelled"],
+        rule="cases: real ImageBuilder::to_pixmap / to_bytes: versions (quick 1, 2, 7; thorough all 40) x 6 shapes x margins "
+             "{0,1,4,7} x fits {original, width 4x, height 5x, both, 2x/3x, non-integer >= 4 px/module} x 4 colour pairs incl. "
+             "transparent background. The harness canonicalises the pixmap to a per-cell summary (uniform colour class of all "
+             "pixels of the cell at integer scale; class of the pixel containing the cell centre) and decodes the PNG with the "
+             "png crate; the Lean spec compares with the matrix. distinct = (version, margin, shape, fit kind, background alpha).",
+        explanation="Proved in Lean: option forwarding ImageBuilder -> SvgBuilder for every setter history (so the raster input "
+                    "is C12's string) and the fit-size rule. Everything about pixels is an observation of the real external "
+                    "rasteriser compared with the matrix by the Lean spec; no theorem covers it.",
+        trusted=["resvg / usvg / tiny-skia / png (external)", "harness canonicalisation of the pixmap to cell summaries"]),
 }
